@@ -1276,5 +1276,104 @@ def item_block_args(repo, out):
                'they write into *)' % '; '.join('("%s"%%string, %s)' % (k, coq_strings(w)) for k, w in per_call))
 
 
+# ------------------------------------------------------------------------------------------- (round 4) tests outside a lock
+# The guarded fields of a class are DERIVED from its source: every attribute of `self` that some method other than
+# __init__ writes (assignment / deletion / augmented assignment, also into an item; a mutating method call) inside a
+# `with self.<lock>:`.  Every mention of such a field outside the lock, in any method but __init__, is listed
+# (`method:field`), and for SensorCache.get the ones that come BEFORE its `with self._lock:` -- a test made outside the lock
+# on state that is written under it -- are what decides the guard position of Model/GuardTest.v.
+
+def _self_field(node):
+    """the attribute of `self` an expression is rooted in: self.X, self.X[k], self.X.y -> 'X'"""
+    from fixtures.sharedwrites import chain_of
+    root, links = chain_of(node)
+    if isinstance(root, ast.Name) and root.id == 'self' and links and isinstance(links[0], ast.Attribute):
+        return links[0].attr
+    return None
+
+
+def _fields_written(node):
+    from fixtures import sharedwrites as sw
+    out = set()
+    for n in ast.walk(node):
+        targets = []
+        if isinstance(n, ast.Assign):
+            targets = n.targets
+        elif isinstance(n, (ast.AugAssign, ast.AnnAssign)):
+            targets = [n.target]
+        elif isinstance(n, ast.Delete):
+            targets = n.targets
+        elif isinstance(n, ast.Call) and isinstance(n.func, ast.Attribute) and n.func.attr in sw.MUTATORS:
+            targets = [n.func.value]
+        for t in targets:
+            for tt in (t.elts if isinstance(t, (ast.Tuple, ast.List)) else [t]):
+                f = _self_field(tt)
+                if f is not None:
+                    out.add(f)
+    return out
+
+
+def derived_guard(repo, rel, cls, lock):
+    c = _class(_parse(repo, rel), cls, rel)
+    methods = [f for f in c.body if isinstance(f, (ast.FunctionDef, ast.AsyncFunctionDef))]
+    guarded = set()
+    for f in methods:
+        if f.name == '__init__':
+            continue
+        for n in ast.walk(f):
+            if isinstance(n, ast.With) and any(_is_self_attr(i.context_expr, [lock]) for i in n.items):
+                for st in n.body:
+                    guarded |= _fields_written(st)
+    guarded.discard(lock)
+    outside, pretests = [], {}
+
+    def mentions_outside(node, fields, acc):
+        if isinstance(node, ast.With) and any(_is_self_attr(i.context_expr, [lock]) for i in node.items):
+            return
+        if isinstance(node, ast.Attribute) and isinstance(node.value, ast.Name) and node.value.id == 'self' and node.attr in fields:
+            if node.attr not in acc:
+                acc.append(node.attr)
+        for ch in ast.iter_child_nodes(node):
+            mentions_outside(ch, fields, acc)
+    for f in methods:
+        if f.name == '__init__':
+            continue
+        acc = []
+        mentions_outside(f, guarded, acc)
+        outside += ['%s:%s' % (f.name, a) for a in acc]
+        # statements of the method body that precede its (first) `with self.<lock>:`
+        pre = []
+        for st in f.body:
+            if isinstance(st, ast.With) and any(_is_self_attr(i.context_expr, [lock]) for i in st.items):
+                break
+            mentions_outside(st, guarded, pre)
+        else:
+            pre = []
+        pretests[f.name] = pre
+    return sorted(guarded), outside, pretests
+
+
+def item_outside_tests(repo, out):
+    rows = []
+    for nm, rel, cls, lock in [('sensor', 'katdal/sensordata.py', 'SensorCache', '_lock'),
+                               ('concat', 'katdal/concatdata.py', 'ConcatenatedSensorCache', '_lock'),
+                               ('dask', 'katdal/lazy_indexer.py', 'DaskLazyIndexer', '_lock'),
+                               ('spw', 'katdal/spectral_window.py', 'SpectralWindow', '_channel_freqs_lock'),
+                               ('pool', 'katdal/chunkstore_s3.py', '_Pool', '_lock')]:
+        guarded, outside, pretests = derived_guard(repo, rel, cls, lock)
+        rows.append((nm, guarded, outside))
+        if nm == 'sensor':
+            if 'get' not in pretests:
+                raise TranslateError('SensorCache.get not found')
+            out.append('Definition c20_sensor_get_pretests : list string := %s.   (* fields written under the cache lock that '
+                       'SensorCache.get mentions BEFORE its `with self._lock:` *)' % coq_strings(pretests['get']))
+    out.append('Definition c20_guarded_derived : list (string * list string) := [%s].   (* per class: the attributes written '
+               'inside `with self.<lock>:` by a method other than __init__ *)'
+               % '; '.join('("%s"%%string, %s)' % (nm, coq_strings(g)) for nm, g, _ in rows))
+    out.append('Definition c20_outside_lock_mentions : list (string * list string) := [%s].   (* per class: method:field for '
+               'every mention of such an attribute outside the lock (not __init__) *)'
+               % '; '.join('("%s"%%string, %s)' % (nm, coq_strings(o)) for nm, _, o in rows))
+
+
 ITEMS = [item_sites, item_discipline, item_pool, item_sensor_flow, item_props, item_verify_bucket,
-         item_shared_writes, item_session_parts, item_block_args]
+         item_shared_writes, item_session_parts, item_block_args, item_outside_tests]
